@@ -861,7 +861,7 @@ def gen_cases(rng, tier, ctx):
             if m <= n and (tier == 'thorough' or rng.random() < 0.5):
                 cases.append({'kind': 'sfg', 'n': n, 'm': m})
     cases.append({'kind': 'sfg', 'n': 3, 'm': 5})
-    # --- exhaustive small scope (thorough): all trees with <= 4 nodes over 2 leaf kinds, counts {1,2,3} ----------------
+    # --- exhaustive small scope (thorough): all trees with <= 4 nodes (30 % of those with 5) over 2 leaf kinds, counts {1,2,3}
     if tier == 'thorough':
         cases.extend(exhaustive_small(rng))
     return cases
@@ -893,7 +893,7 @@ def _forest(n):
 def exhaustive_small(rng):
     leafs = [{'k': 'const', 'd': '2', 'v': {'A': '1'}}, {'k': 'table', 'ch': 'A', 'e': [['0', '0', 'hold'], ['1', '1', 'linear']]}]
     cases = []
-    for n in range(1, 5):
+    for n in range(1, 6):
         for sh in _shapes(n):
             nodes = []
 
@@ -904,7 +904,7 @@ def exhaustive_small(rng):
             count(sh)
             k = len(nodes)
             for reps in itertools.product([1, 2, 3], repeat=k):
-                if rng.random() > (1.0 if k <= 3 else 0.25):
+                if rng.random() > (1.0 if k <= 4 else 0.3):
                     continue
                 it = iter(range(k))
 
